@@ -1019,7 +1019,7 @@ def run(ctx):
     r = ctx.rng
     thorough = ctx.thorough
     pool = Pool(r)
-    nprog, nnest, nperm = (700, 1600, 1200) if thorough else (90, 280, 200)
+    nprog, nnest, nperm = (600, 1400, 1000) if thorough else (90, 280, 200)
     for i in range(nprog):
         program_families(ctx, pool, i, thorough)
     nests = [x for x in (nest_families(ctx, pool, i, thorough) for i in range(nnest)) if x]
